@@ -812,3 +812,574 @@ Proof.
   exists (begin_order (hist_of tr)). repeat split; try assumption; try apply B.
   rewrite D. discriminate.
 Qed.
+
+(* ------------------------------------------------------------------------------------- *)
+(* 7. the checker for recorded histories is sound                                          *)
+(* ------------------------------------------------------------------------------------- *)
+
+Lemma existsb_eqb_in : forall x l, existsb (Nat.eqb x) l = true <-> In x l.
+Proof.
+  intros x l. rewrite existsb_exists. split.
+  - intros (y & Hy & E). apply PeanoNat.Nat.eqb_eq in E. subst. exact Hy.
+  - intros H. exists x. split; [exact H|apply PeanoNat.Nat.eqb_refl].
+Qed.
+
+Lemma nodupb_sound : forall l, nodupb l = true -> NoDup l.
+Proof.
+  induction l as [|x l IH]; intros H; [constructor|].
+  cbn [nodupb] in H. apply andb_prop in H. destruct H as [H1 H2].
+  constructor; [|apply IH; exact H2].
+  intros Hin. apply existsb_eqb_in in Hin. rewrite Hin in H1. discriminate.
+Qed.
+
+Lemma fin_before_b_complete : forall h t1 t2, finished_before h t1 t2 -> fin_before_b h t1 t2 = true.
+Proof.
+  intros h t1 t2 H. unfold fin_before_b. apply forallb_forall. intros e1 H1.
+  apply forallb_forall. intros e2 H2. apply proj_in in H1. apply proj_in in H2.
+  apply N.ltb_lt. apply H; tauto.
+Qed.
+
+Lemma fin_before_b_sound : forall h t1 t2, fin_before_b h t1 t2 = true -> finished_before h t1 t2.
+Proof.
+  intros h t1 t2 H e1 e2 H1 H2 E1 E2. unfold fin_before_b in H.
+  rewrite forallb_forall in H. specialize (H e1 ltac:(apply proj_in; auto)).
+  rewrite forallb_forall in H. specialize (H e2 ltac:(apply proj_in; auto)).
+  apply N.ltb_lt. exact H.
+Qed.
+
+Lemma precedes_cons : forall t order a b, precedes order a b -> precedes (t :: order) a b.
+Proof. intros t order a b (l1 & l2 & l3 & E). exists (t :: l1), l2, l3. rewrite E. reflexivity. Qed.
+
+Lemma rt_check_sound : forall h order, rt_check h order = true -> rt_consistent h order.
+Proof.
+  induction order as [|t r IH]; intros H t1 t2 H1 H2 Hne Hfb; [destruct H1|].
+  cbn [rt_check] in H. apply andb_prop in H. destruct H as [Hc Hr].
+  destruct H1 as [H1|H1].
+  - subst t1. destruct H2 as [H2|H2]; [congruence|].
+    apply in_split in H2. destruct H2 as (l2 & l3 & E). exists [], l2, l3. rewrite E. reflexivity.
+  - destruct H2 as [H2|H2].
+    + subst t2. rewrite forallb_forall in Hc. specialize (Hc _ H1).
+      rewrite (fin_before_b_complete _ _ _ Hfb) in Hc. discriminate.
+    + apply precedes_cons. apply IH; assumption.
+Qed.
+
+Lemma seq_ok_b_sound : forall l, seq_ok_b l = true -> seq_ok l.
+Proof.
+  induction l as [|e l IH]; intros H; cbn [seq_ok]; [exact I|].
+  cbn [seq_ok_b] in H. apply andb_prop in H. destruct H as [H H3]. apply andb_prop in H. destruct H as [H1 H2].
+  split; [apply N.leb_le; exact H1|]. split; [|apply IH; exact H3].
+  intros e' He'. rewrite forallb_forall in H2. apply N.ltb_lt. apply H2. exact He'.
+Qed.
+
+Theorem ser_check_sound : forall S0 h,
+  ser_check S0 h = true -> serializable S0 h /\ hist_wf h.
+Proof.
+  intros S0 h H. unfold ser_check in H.
+  apply andb_prop in H. destruct H as [H H5]. apply andb_prop in H. destruct H as [H H4].
+  apply andb_prop in H. destruct H as [H H3]. apply andb_prop in H. destruct H as [H1 H2].
+  assert (Hmem : forall t, In t (begin_order h) <-> In t (map h_tx h)).
+  { intros t. split; [apply begin_order_in|].
+    intros Ht. apply in_map_iff in Ht. destruct Ht as (e & E & He). rewrite <- E.
+    rewrite forallb_forall in H2. apply existsb_eqb_in. apply H2. exact He. }
+  split.
+  - exists (begin_order h). split; [apply nodupb_sound; exact H1|]. split; [exact Hmem|].
+    split; [apply rt_check_sound; exact H4|].
+    destruct (serial_run S0 h (begin_order h)); [discriminate|discriminate].
+  - intros t. unfold wf_check in H3. rewrite forallb_forall in H3.
+    destruct (in_dec PeanoNat.Nat.eq_dec t (begin_order h)) as [Hin|Hnin].
+    + apply seq_ok_b_sound. apply H3. exact Hin.
+    + rewrite proj_empty; [exact I|]. intros Hc. apply Hnin. apply Hmem. exact Hc.
+Qed.
+
+(* ------------------------------------------------------------------------------------- *)
+(* 8. corollaries: own writes, no dirty reads, read-only snapshot                          *)
+(* ------------------------------------------------------------------------------------- *)
+
+Lemma find_upd_other : forall t t' x l, t <> t' -> find_tx t (upd_tx t' x l) = find_tx t l.
+Proof.
+  induction l as [|[t0 x0] l IH]; intros Hne; cbn [upd_tx find_tx]; [reflexivity|].
+  destruct (Nat.eqb t' t0) eqn:E'; cbn [find_tx].
+  - apply PeanoNat.Nat.eqb_eq in E'. subst t0.
+    destruct (Nat.eqb t t') eqn:E; [apply PeanoNat.Nat.eqb_eq in E; congruence|reflexivity].
+  - destruct (Nat.eqb t t0); [reflexivity|apply IH; exact Hne].
+Qed.
+
+Lemma find_upd_same : forall t x x0 l, find_tx t l = Some x0 -> find_tx t (upd_tx t x l) = Some x.
+Proof.
+  induction l as [|[t0 y] l IH]; intros H; cbn [upd_tx find_tx] in *; [discriminate|].
+  destruct (Nat.eqb t t0) eqn:E; cbn [find_tx]; rewrite E; [reflexivity|apply IH; exact H].
+Qed.
+
+Lemma find_app_some : forall t x l l', find_tx t l = Some x -> find_tx t (l ++ l') = Some x.
+Proof.
+  induction l as [|[t0 y] l IH]; intros l' H; cbn [app find_tx] in *; [discriminate|].
+  destruct (Nat.eqb t t0); [exact H|apply IH; exact H].
+Qed.
+
+Lemma find_app_other : forall t t' x l, t <> t' -> find_tx t (l ++ [(t', x)]) = find_tx t l.
+Proof.
+  induction l as [|[t0 y] l IH]; intros Hne; cbn [app find_tx].
+  - destruct (Nat.eqb t t') eqn:E; [apply PeanoNat.Nat.eqb_eq in E; congruence|reflexivity].
+  - destruct (Nat.eqb t t0); [reflexivity|apply IH; exact Hne].
+Qed.
+
+Lemma buf_get_set_same : forall k ov b, buf_get k (buf_set k ov b) = Some ov.
+Proof.
+  induction b as [|[k0 ov0] b IH]; cbn [buf_set buf_get].
+  - rewrite beq_refl. reflexivity.
+  - destruct (bcmp k k0) eqn:E; cbn [buf_get]; rewrite ?beq_refl; try reflexivity.
+    unfold beq. rewrite E. exact IH.
+Qed.
+
+Lemma beq_neq : forall a b, a <> b -> beq a b = false.
+Proof. intros a b H. destruct (beq a b) eqn:E; [apply beq_eq in E; congruence|reflexivity]. Qed.
+
+Lemma buf_get_set_other : forall k k' ov b, k <> k' -> buf_get k (buf_set k' ov b) = buf_get k b.
+Proof.
+  induction b as [|[k0 ov0] b IH]; intros Hne; cbn [buf_set buf_get].
+  - rewrite (beq_neq _ _ Hne). reflexivity.
+  - destruct (bcmp k' k0) eqn:E; cbn [buf_get].
+    + apply tx_bcmp_eq in E. subst k0. rewrite (beq_neq _ _ Hne). reflexivity.
+    + rewrite (beq_neq _ _ Hne). reflexivity.
+    + destruct (beq k k0); [reflexivity|apply IH; exact Hne].
+Qed.
+
+(* what a transaction may do itself to lose sight of its write to k *)
+Definition disturbs (t : nat) (k : key) (l : label) : Prop :=
+  match l with
+  | LCall t' c _ =>
+      t' = t /\ match c with
+                | CPut k' _ => k' = k
+                | CDel k' => k' = k
+                | CCommit | CRollback => True
+                | _ => False
+                end
+  | LRel _ => False
+  end.
+
+Definition sees (s : state) (t : nat) (k : key) (ov : option value) : Prop :=
+  exists x, find_tx t (s_txs s) = Some x /\ x_active (t_spec x) = true /\ buf_get k (x_buf (t_spec x)) = Some ov.
+
+Lemma sees_step : forall s l s' t k ov,
+  sees s t k ov -> step s l s' -> ~ disturbs t k l -> sees s' t k ov.
+Proof.
+  intros s l s' t k ov (x & F & Ha & Hb) H Hd. destruct l as [t' c r|t']; cbn [step] in H.
+  - destruct (PeanoNat.Nat.eq_dec t' t) as [E|E].
+    + subst t'. destruct c; cbn [exec] in H; rewrite F in H; try discriminate;
+        cbn [spec_step] in H; rewrite Ha in H.
+      * inversion H; subst. exists {| t_spec := t_spec x; t_lock := t_lock x |}.
+        cbn. split; [eapply find_upd_same; eauto|auto].
+      * destruct (x_mode (t_spec x)); inversion H; subst.
+        -- exists {| t_spec := t_spec x; t_lock := t_lock x |}. cbn. split; [eapply find_upd_same; eauto|auto].
+        -- eexists. cbn. split; [eapply find_upd_same; eauto|]. cbn. split; [exact Ha|].
+           rewrite buf_get_set_other; [exact Hb|]. intros E. apply Hd. cbn. auto.
+      * destruct (x_mode (t_spec x)); inversion H; subst.
+        -- exists {| t_spec := t_spec x; t_lock := t_lock x |}. cbn. split; [eapply find_upd_same; eauto|auto].
+        -- eexists. cbn. split; [eapply find_upd_same; eauto|]. cbn. split; [exact Ha|].
+           rewrite buf_get_set_other; [exact Hb|]. intros E. apply Hd. cbn. auto.
+      * inversion H; subst. exists {| t_spec := t_spec x; t_lock := t_lock x |}.
+        cbn. split; [eapply find_upd_same; eauto|auto].
+      * exfalso. apply Hd. cbn. auto.
+      * exfalso. apply Hd. cbn. auto.
+    + exists x. split; [|auto].
+      destruct c; cbn [exec] in H.
+      * destruct (find_tx t' (s_txs s)); [discriminate|].
+        destruct m; [destruct (s_writer s)|destruct (s_writer s || negb (Nat.eqb (s_readers s) 0))];
+          inversion H; subst; cbn; apply find_app_some; exact F.
+      * destruct (find_tx t' (s_txs s)) as [y|]; [|discriminate].
+        destruct (spec_step (s_store s) (t_spec y) (CGet k0)) as [[[? ?] ?]|]; inversion H; subst; cbn.
+        rewrite find_upd_other by congruence. exact F.
+      * destruct (find_tx t' (s_txs s)) as [y|]; [|discriminate].
+        destruct (spec_step (s_store s) (t_spec y) (CPut k0 v)) as [[[? ?] ?]|]; inversion H; subst; cbn.
+        rewrite find_upd_other by congruence. exact F.
+      * destruct (find_tx t' (s_txs s)) as [y|]; [|discriminate].
+        destruct (spec_step (s_store s) (t_spec y) (CDel k0)) as [[[? ?] ?]|]; inversion H; subst; cbn.
+        rewrite find_upd_other by congruence. exact F.
+      * destruct (find_tx t' (s_txs s)) as [y|]; [|discriminate].
+        destruct (spec_step (s_store s) (t_spec y) (CScan lo hi)) as [[[? ?] ?]|]; inversion H; subst; cbn.
+        rewrite find_upd_other by congruence. exact F.
+      * destruct (find_tx t' (s_txs s)) as [y|]; [|discriminate].
+        destruct (spec_step (s_store s) (t_spec y) CCommit) as [[[? ?] ?]|]; inversion H; subst; cbn.
+        rewrite find_upd_other by congruence. exact F.
+      * destruct (find_tx t' (s_txs s)) as [y|]; [|discriminate].
+        destruct (spec_step (s_store s) (t_spec y) CRollback) as [[[? ?] ?]|]; inversion H; subst; cbn.
+        rewrite find_upd_other by congruence. exact F.
+  - (* release: only of a transaction that is no longer active *)
+    unfold release in H. destruct (find_tx t' (s_txs s)) as [y|] eqn:F'; [|discriminate].
+    destruct (t_lock y && negb (x_active (t_spec y))) eqn:G; [|discriminate].
+    destruct (PeanoNat.Nat.eq_dec t' t) as [E|E].
+    + subst t'. rewrite F in F'. inversion F'; subst y. rewrite Ha in G.
+      rewrite andb_false_r in G. discriminate.
+    + exists x. split; [|auto].
+      destruct (x_mode (t_spec y)); inversion H; subst; cbn; rewrite find_upd_other by congruence; exact F.
+Qed.
+
+Lemma sees_steps : forall s tr s' t k ov,
+  steps s tr s' -> sees s t k ov -> (forall l, In l tr -> ~ disturbs t k l) -> sees s' t k ov.
+Proof.
+  intros s tr s' t k ov H. induction H as [s|s l s1 tr s2 H1 H2 IH]; intros Hs Hnd; [exact Hs|].
+  apply IH; [|intros l' Hl'; apply Hnd; right; exact Hl'].
+  eapply sees_step; eauto. apply Hnd. left. reflexivity.
+Qed.
+
+(* own writes: after an acknowledged Put (Delete) of k, the transaction's next Get of k returns
+   that value (not found), whatever the other transactions do in between *)
+Theorem own_writes : forall s t k c ov s1 tr s2 s3 r,
+  (c = CPut k match ov with Some v => v | None => [] end /\ ov <> None \/ c = CDel k /\ ov = None) ->
+  exec s t c = Some (s1, ROk) ->
+  steps s1 tr s2 -> (forall l, In l tr -> ~ disturbs t k l) ->
+  exec s2 t (CGet k) = Some (s3, r) -> r = RVal ov.
+Proof.
+  intros s t k c ov s1 tr s2 s3 r Hc H Htr Hnd Hg.
+  assert (Hsees : sees s1 t k ov).
+  { destruct Hc as [[Hc Hov]|[Hc Hov]]; subst c; cbn [exec] in H;
+      destruct (find_tx t (s_txs s)) as [x|] eqn:F; try discriminate; cbn [spec_step] in H;
+      destruct (x_active (t_spec x)) eqn:Ha; try discriminate;
+      destruct (x_mode (t_spec x)); try discriminate; inversion H; subst s1; clear H.
+    - destruct ov as [v|]; [|congruence]. eexists. cbn. split; [eapply find_upd_same; eauto|].
+      cbn. split; [exact Ha|apply buf_get_set_same].
+    - subst ov. eexists. cbn. split; [eapply find_upd_same; eauto|].
+      cbn. split; [exact Ha|apply buf_get_set_same]. }
+  assert (Hsees2 : sees s2 t k ov) by (eapply sees_steps; eauto).
+  destruct Hsees2 as (x & F & Ha & Hb). cbn [exec] in Hg. rewrite F in Hg. cbn [spec_step] in Hg.
+  rewrite Ha in Hg. inversion Hg; subst. unfold read. rewrite Hb. reflexivity.
+Qed.
+
+Corollary own_put : forall s t k v s1 tr s2 s3 r,
+  exec s t (CPut k v) = Some (s1, ROk) ->
+  steps s1 tr s2 -> (forall l, In l tr -> ~ disturbs t k l) ->
+  exec s2 t (CGet k) = Some (s3, r) -> r = RVal (Some v).
+Proof.
+  intros. eapply (own_writes s t k (CPut k v) (Some v)); eauto. left. split; [reflexivity|discriminate].
+Qed.
+
+Corollary own_delete : forall s t k s1 tr s2 s3 r,
+  exec s t (CDel k) = Some (s1, ROk) ->
+  steps s1 tr s2 -> (forall l, In l tr -> ~ disturbs t k l) ->
+  exec s2 t (CGet k) = Some (s3, r) -> r = RVal None.
+Proof. intros. eapply (own_writes s t k (CDel k) None); eauto. Qed.
+
+(* no dirty reads: whatever another transaction does short of committing — in particular its
+   writes — leaves the result of every call of t unchanged *)
+Definition result_of (o : option (state * result)) : option result := option_map snd o.
+
+Lemma exec_other_frame : forall s t' c' s' r' t,
+  exec s t' c' = Some (s', r') -> t <> t' -> c' <> CCommit ->
+  s_store s' = s_store s /\ find_tx t (s_txs s') = find_tx t (s_txs s).
+Proof.
+  intros s t' c' s' r' t H Hne Hc.
+  destruct c'; cbn [exec] in H; try congruence.
+  - destruct (find_tx t' (s_txs s)); [discriminate|].
+    destruct m; [destruct (s_writer s)|destruct (s_writer s || negb (Nat.eqb (s_readers s) 0))];
+      inversion H; subst; cbn; (split; [reflexivity|apply find_app_other; exact Hne]).
+  - destruct (find_tx t' (s_txs s)) as [y|]; [|discriminate].
+    destruct (spec_step (s_store s) (t_spec y) (CGet k)) as [[[S1 x1] r1]|] eqn:E; inversion H; subst; cbn.
+    split; [|apply find_upd_other; exact Hne].
+    destruct (spec_step_store _ _ _ _ _ _ E) as [E1|(E1 & _)]; [exact E1|discriminate].
+  - destruct (find_tx t' (s_txs s)) as [y|]; [|discriminate].
+    destruct (spec_step (s_store s) (t_spec y) (CPut k v)) as [[[S1 x1] r1]|] eqn:E; inversion H; subst; cbn.
+    split; [|apply find_upd_other; exact Hne].
+    destruct (spec_step_store _ _ _ _ _ _ E) as [E1|(E1 & _)]; [exact E1|discriminate].
+  - destruct (find_tx t' (s_txs s)) as [y|]; [|discriminate].
+    destruct (spec_step (s_store s) (t_spec y) (CDel k)) as [[[S1 x1] r1]|] eqn:E; inversion H; subst; cbn.
+    split; [|apply find_upd_other; exact Hne].
+    destruct (spec_step_store _ _ _ _ _ _ E) as [E1|(E1 & _)]; [exact E1|discriminate].
+  - destruct (find_tx t' (s_txs s)) as [y|]; [|discriminate].
+    destruct (spec_step (s_store s) (t_spec y) (CScan lo hi)) as [[[S1 x1] r1]|] eqn:E; inversion H; subst; cbn.
+    split; [|apply find_upd_other; exact Hne].
+    destruct (spec_step_store _ _ _ _ _ _ E) as [E1|(E1 & _)]; [exact E1|discriminate].
+  - destruct (find_tx t' (s_txs s)) as [y|]; [|discriminate].
+    destruct (spec_step (s_store s) (t_spec y) CRollback) as [[[S1 x1] r1]|] eqn:E; inversion H; subst; cbn.
+    split; [|apply find_upd_other; exact Hne].
+    destruct (spec_step_store _ _ _ _ _ _ E) as [E1|(E1 & _)]; [exact E1|discriminate].
+Qed.
+
+Theorem no_dirty_read : forall s t' c' s' r' t c,
+  exec s t' c' = Some (s', r') -> t <> t' -> c' <> CCommit ->
+  (forall m, c <> CBegin m) ->
+  result_of (exec s' t c) = result_of (exec s t c).
+Proof.
+  intros s t' c' s' r' t c H Hne Hc Hnb.
+  destruct (exec_other_frame _ _ _ _ _ t H Hne Hc) as [E1 E2].
+  rewrite !exec_nonbegin by exact Hnb. rewrite E1, E2.
+  destruct (find_tx t (s_txs s)) as [x|]; [|reflexivity].
+  destruct (spec_step (s_store s) (t_spec x) c) as [[[S1 x1] r1]|]; reflexivity.
+Qed.
+
+(* read-only snapshot: from its Begin on, an active read-only transaction has an empty buffer
+   and the committed store is the one it began on *)
+Definition ro_view (Sb : store) (t : nat) (s : state) : Prop :=
+  exists x, find_tx t (s_txs s) = Some x /\ x_mode (t_spec x) = RO /\ x_buf (t_spec x) = [] /\
+            (x_active (t_spec x) = true -> s_store s = Sb).
+
+Lemma spec_step_ro : forall S x c S' x' r,
+  spec_step S x c = Some (S', x', r) -> x_mode x = RO -> x_buf x = [] ->
+  S' = S /\ x_mode x' = RO /\ x_buf x' = [] /\ (x_active x' = true -> x_active x = true).
+Proof.
+  intros S x c S' x' r H Hm Hb.
+  destruct c; cbn [spec_step] in H; try discriminate; rewrite ?Hm in H;
+    destruct (x_active x) eqn:Ha; inversion H; subst; cbn; auto;
+    repeat split; auto; congruence.
+Qed.
+
+Lemma classic_commit : forall c, c = CCommit \/ c <> CCommit.
+Proof. intros c. destruct c; try (right; discriminate). left. reflexivity. Qed.
+
+Lemma find_in : forall t x l, find_tx t l = Some x -> In (t, x) l.
+Proof.
+  intros t x l H. destruct (find_tx_split _ _ _ H) as (l1 & l2 & E & _). subst l. apply in_mid. auto.
+Qed.
+
+Lemma ro_view_step : forall S0 h Sb t s l s',
+  Inv S0 s h -> ro_view Sb t s -> step s l s' -> ro_view Sb t s'.
+Proof.
+  intros S0 h Sb t s l s' I (x & F & Hm & Hb & Hst) H.
+  destruct l as [t' c r|t']; cbn [step] in H.
+  - destruct (PeanoNat.Nat.eq_dec t' t) as [E|E].
+    + subst t'.
+      assert (Hnb : forall m, c <> CBegin m).
+      { intros m Ec. subst c. cbn [exec] in H. rewrite F in H. discriminate. }
+      rewrite exec_nonbegin in H by exact Hnb. rewrite F in H.
+      destruct (spec_step (s_store s) (t_spec x) c) as [[[S1 x1] r1]|] eqn:Es; [|discriminate].
+      inversion H; subst; clear H.
+      destruct (spec_step_ro _ _ _ _ _ _ Es Hm Hb) as (A & B & C & D).
+      eexists. cbn. split; [eapply find_upd_same; eauto|]. cbn. repeat split; auto.
+      intros Ha. rewrite A. apply Hst. apply D. exact Ha.
+    + destruct (classic_commit c) as [Ec|Ec].
+      * (* a commit of another transaction *)
+        subst c. rewrite exec_nonbegin in H by (intros; discriminate).
+        destruct (find_tx t' (s_txs s)) as [y|] eqn:F'; [|discriminate].
+        destruct (spec_step (s_store s) (t_spec y) CCommit) as [[[S1 x1] r1]|] eqn:Es; [|discriminate].
+        inversion H; subst; clear H. exists x. cbn. rewrite find_upd_other by congruence.
+        repeat split; auto. intros Ha.
+        destruct (spec_step_store _ _ _ _ _ _ Es) as [E1|(_ & E2 & E3 & _)]; [rewrite E1; apply Hst; exact Ha|].
+        (* an active read-write transaction excludes the active reader t *)
+        exfalso. destruct I as [Iids Ind Iev Ial Ird Iwr Iex Ila Ich].
+        assert (Ly : t_lock y = true) by (apply (Ial (t', y)); [apply find_in; exact F'|exact E3]).
+        assert (Lx : t_lock x = true) by (apply (Ial (t, x)); [apply find_in; exact F|exact Ha]).
+        assert (Hw : s_writer s = true).
+        { rewrite Iwr. unfold has_rw. apply existsb_exists. exists (t', y).
+          split; [apply find_in; exact F'|]. cbn. unfold rw_locked. rewrite E2. exact Ly. }
+        assert (Hz : count_ro (s_txs s) = 0%nat) by (rewrite <- Ird; apply Iex; exact Hw).
+        pose proof (count_ro_zero _ Hz t x (find_in _ _ _ F)) as Q.
+        unfold ro_locked in Q. rewrite Hm in Q. congruence.
+      * destruct (exec_other_frame _ _ _ _ _ t H ltac:(congruence) Ec) as [E1 E2].
+        exists x. rewrite E1, E2. auto.
+  - unfold release in H. destruct (find_tx t' (s_txs s)) as [y|] eqn:F'; [|discriminate].
+    destruct (t_lock y && negb (x_active (t_spec y))); [|discriminate].
+    destruct (PeanoNat.Nat.eq_dec t' t) as [E|E].
+    + subst t'. rewrite F in F'. inversion F'; subst y.
+      rewrite Hm in H. inversion H; subst; clear H. eexists. cbn.
+      split; [eapply find_upd_same; eauto|]. cbn. auto.
+    + exists x. destruct (x_mode (t_spec y)); inversion H; subst; cbn;
+        rewrite find_upd_other by congruence; auto.
+Qed.
+
+Lemma ro_view_steps : forall S0 Sb t s tr s',
+  steps s tr s' -> forall tr0, steps (init S0) tr0 s -> ro_view Sb t s -> ro_view Sb t s'.
+Proof.
+  intros S0 Sb t s tr s' H. induction H as [s|s l s1 tr s2 H1 H2 IH]; intros tr0 Hr Hv; [exact Hv|].
+  apply (IH (tr0 ++ [l])).
+  - apply steps_app. exists s. split; [exact Hr|]. econstructor; [exact H1|constructor].
+  - eapply ro_view_step; [apply (reach_inv _ _ _ Hr)|exact Hv|exact H1].
+Qed.
+
+Lemma ro_view_begin : forall s t s' r,
+  exec s t (CBegin RO) = Some (s', r) -> ro_view (s_store s) t s'.
+Proof.
+  intros s t s' r H. cbn [exec] in H. destruct (find_tx t (s_txs s)) eqn:F; [discriminate|].
+  destruct (s_writer s); [discriminate|]. inversion H; subst; clear H.
+  eexists. cbn. split; [rewrite find_tx_app_none by exact F; cbn; rewrite PeanoNat.Nat.eqb_refl; reflexivity|].
+  cbn. auto.
+Qed.
+
+(* every Get / scan of a read-only transaction returns the committed state it began on *)
+Theorem ro_snapshot_get : forall S0 tr1 s1 t s1' r0 tr2 s2 k s3 r,
+  steps (init S0) tr1 s1 -> exec s1 t (CBegin RO) = Some (s1', r0) ->
+  steps s1' tr2 s2 -> exec s2 t (CGet k) = Some (s3, r) ->
+  r = RVal (st_get k (s_store s1)) \/ r = RClosed.
+Proof.
+  intros S0 tr1 s1 t s1' r0 tr2 s2 k s3 r H1 Hb H2 Hg.
+  assert (Hr : steps (init S0) (tr1 ++ [LCall t (CBegin RO) r0]) s1').
+  { apply steps_app. exists s1. split; [exact H1|]. econstructor; [exact Hb|constructor]. }
+  destruct (ro_view_steps _ _ _ _ _ _ H2 _ Hr (ro_view_begin _ _ _ _ Hb)) as (x & F & Hm & Hbuf & Hst).
+  cbn [exec] in Hg. rewrite F in Hg. cbn [spec_step] in Hg.
+  destruct (x_active (t_spec x)) eqn:Ha; inversion Hg; subst; [left|right; reflexivity].
+  unfold read. rewrite Hbuf. cbn. rewrite Hst by reflexivity. reflexivity.
+Qed.
+
+Theorem ro_snapshot_scan : forall S0 tr1 s1 t s1' r0 tr2 s2 lo hi s3 r,
+  steps (init S0) tr1 s1 -> exec s1 t (CBegin RO) = Some (s1', r0) ->
+  steps s1' tr2 s2 -> exec s2 t (CScan lo hi) = Some (s3, r) ->
+  r = RRows (scan lo hi [] (s_store s1)) \/ r = RRows [].
+Proof.
+  intros S0 tr1 s1 t s1' r0 tr2 s2 lo hi s3 r H1 Hb H2 Hg.
+  assert (Hr : steps (init S0) (tr1 ++ [LCall t (CBegin RO) r0]) s1').
+  { apply steps_app. exists s1. split; [exact H1|]. econstructor; [exact Hb|constructor]. }
+  destruct (ro_view_steps _ _ _ _ _ _ H2 _ Hr (ro_view_begin _ _ _ _ Hb)) as (x & F & Hm & Hbuf & Hst).
+  cbn [exec] in Hg. rewrite F in Hg. cbn [spec_step] in Hg.
+  destruct (x_active (t_spec x)) eqn:Ha; inversion Hg; subst; [left|right; reflexivity].
+  rewrite Hbuf. rewrite Hst by reflexivity. reflexivity.
+Qed.
+
+(* mutual exclusion, as a statement of its own: while a read-write transaction is active no
+   other transaction is *)
+Theorem rw_exclusive : forall S0 tr s t x t' x',
+  steps (init S0) tr s ->
+  find_tx t (s_txs s) = Some x -> x_mode (t_spec x) = RW -> x_active (t_spec x) = true ->
+  find_tx t' (s_txs s) = Some x' -> x_active (t_spec x') = true -> t' = t.
+Proof.
+  intros S0 tr s t x t' x' H F Hm Ha F' Ha'.
+  destruct (reach_inv _ _ _ H) as [Iids Ind Iev Ial Ird Iwr Iex Ila Ich].
+  assert (Lx : t_lock x = true) by (apply (Ial (t, x)); [apply find_in; exact F|exact Ha]).
+  assert (Lx' : t_lock x' = true) by (apply (Ial (t', x')); [apply find_in; exact F'|exact Ha']).
+  assert (Hw : s_writer s = true).
+  { rewrite Iwr. unfold has_rw. apply existsb_exists. exists (t, x).
+    split; [apply find_in; exact F|]. cbn. unfold rw_locked. rewrite Hm. exact Lx. }
+  assert (Hz : count_ro (s_txs s) = 0%nat) by (rewrite <- Ird; apply Iex; exact Hw).
+  pose proof (count_ro_zero _ Hz t' x' (find_in _ _ _ F')) as Q. unfold ro_locked in Q.
+  destruct (x_mode (t_spec x')) eqn:Hm'; [congruence|].
+  (* both hold the write lock: both are the newest entry *)
+  destruct (find_tx_split _ _ _ F) as (l1 & l2 & E & Hn).
+  rewrite E in Ila. destruct (rw_last_mid _ _ _ Ila) as (A & B & _ & _). cbn [snd] in A.
+  assert (rw_locked x = true) by (unfold rw_locked; rewrite Hm; exact Lx). specialize (A H0). subst l2.
+  pose proof (find_in _ _ _ F') as Hin. rewrite E in Hin. apply in_mid in Hin.
+  destruct Hin as [Hin|[Hin|[]]]; [congruence|].
+  specialize (B _ Hin). cbn [snd] in B. unfold rw_locked in B. rewrite Hm' in B. congruence.
+Qed.
+
+(* ------------------------------------------------------------------------------------- *)
+(* 9. non-vacuity                                                                          *)
+(* ------------------------------------------------------------------------------------- *)
+
+Lemma run_trace_sound : forall tr s s', run_trace s tr = Some s' -> steps s tr s'.
+Proof.
+  induction tr as [|l tr IH]; intros s s' H; cbn [run_trace] in H.
+  - inversion H; subst. constructor.
+  - destruct l as [t c r|t].
+    + destruct (exec s t c) as [[s1 r1]|] eqn:E; [|discriminate].
+      destruct (result_eqb r1 r) eqn:Er; [|discriminate]. apply result_eqb_eq in Er. subst r1.
+      econstructor; [exact E|apply IH; exact H].
+    + destruct (release s t) as [s1|] eqn:E; [|discriminate].
+      econstructor; [exact E|apply IH; exact H].
+Qed.
+
+Definition ka : key := [97].
+Definition kb : key := [98].
+Definition v1 : value := [1].
+Definition v2 : value := [2].
+
+(* two readers overlap; a writer starts after both released, reads its own write and its own
+   delete, commits; a later reader sees the committed state; calls on closed transactions and
+   a write in a read-only transaction are answered with errors *)
+Definition ex_trace : list label :=
+  [ LCall 1 (CBegin RO) ROk; LCall 2 (CBegin RO) ROk;
+    LCall 1 (CGet ka) (RVal None); LCall 2 (CPut ka v1) RReadOnly;
+    LCall 1 CCommit ROk; LCall 2 (CScan None None) (RRows []); LRel 1;
+    LCall 2 CRollback ROk; LCall 2 (CGet ka) RClosed; LRel 2;
+    LCall 3 (CBegin RW) ROk; LCall 3 (CPut ka v1) ROk; LCall 3 (CPut kb v2) ROk;
+    LCall 3 (CGet ka) (RVal (Some v1)); LCall 3 (CDel kb) ROk; LCall 3 (CGet kb) (RVal None);
+    LCall 3 (CScan None None) (RRows [(ka, v1)]); LCall 3 CCommit ROk; LCall 3 CCommit RClosed; LRel 3;
+    LCall 4 (CBegin RO) ROk; LCall 4 (CGet ka) (RVal (Some v1));
+    LCall 4 (CScan (Some ka) (Some kb)) (RRows [(ka, v1)]) ].
+
+Example ex_trace_runs : exists s, steps (init []) ex_trace s /\ s_store s = [(ka, v1)] /\ s_readers s = 1%nat.
+Proof.
+  destruct (run_trace (init []) ex_trace) as [s|] eqn:E; [|vm_compute in E; discriminate].
+  exists s. split; [apply run_trace_sound; exact E|]. vm_compute in E. inversion E. split; reflexivity.
+Qed.
+
+Example ex_trace_serializable : serializable [] (hist_of ex_trace).
+Proof. destruct ex_trace_runs as (s & H & _). exact (lts_serializable _ _ _ H). Qed.
+
+Example ex_trace_checked : ser_check [] (hist_of ex_trace) = true.
+Proof. vm_compute. reflexivity. Qed.
+
+(* the lock really blocks: with a reader active a writer cannot begin, and vice versa *)
+Example ex_blocked_writer : forall s, run_trace (init []) [LCall 1 (CBegin RO) ROk] = Some s ->
+  exec s 2 (CBegin RW) = None /\ exists s', exec s 2 (CBegin RO) = Some (s', ROk).
+Proof. intros s H. vm_compute in H. inversion H; subst. split; [reflexivity|eexists; reflexivity]. Qed.
+
+Example ex_blocked_reader : forall s, run_trace (init []) [LCall 1 (CBegin RW) ROk; LCall 1 CCommit ROk] = Some s ->
+  exec s 2 (CBegin RO) = None /\ exec s 2 (CBegin RW) = None /\
+  exists s1 s2, release s 1 = Some s1 /\ exec s1 2 (CBegin RW) = Some (s2, ROk).
+Proof.
+  intros s H. vm_compute in H. inversion H; subst.
+  split; [reflexivity|split; [reflexivity|]]. eexists. eexists. split; reflexivity.
+Qed.
+
+Definition ev (t : nat) (c : call) (r : result) (i o : N) : hev :=
+  {| h_tx := t; h_call := c; h_res := r; h_inv := i; h_ret := o |}.
+
+(* histories the checker must reject *)
+(* dirty read: t2 sees the uncommitted write of t1 *)
+Definition h_dirty : history :=
+  [ ev 1 (CBegin RW) ROk 1 2; ev 1 (CPut ka v1) ROk 3 4; ev 2 (CBegin RO) ROk 5 6;
+    ev 2 (CGet ka) (RVal (Some v1)) 7 8; ev 2 CCommit ROk 9 10; ev 1 CRollback ROk 11 12 ].
+(* non-repeatable read: t1 reads a twice around the commit of t2 *)
+Definition h_nonrep : history :=
+  [ ev 1 (CBegin RO) ROk 1 2; ev 1 (CGet ka) (RVal None) 3 4; ev 2 (CBegin RW) ROk 5 6;
+    ev 2 (CPut ka v1) ROk 7 8; ev 2 CCommit ROk 9 10; ev 1 (CGet ka) (RVal (Some v1)) 11 12;
+    ev 1 CCommit ROk 13 14 ].
+(* lost own write *)
+Definition h_lost_own : history :=
+  [ ev 1 (CBegin RW) ROk 1 2; ev 1 (CPut ka v1) ROk 3 4; ev 1 (CGet ka) (RVal None) 5 6; ev 1 CCommit ROk 7 8 ].
+(* stale read: t2 began after t1's commit returned and does not see it *)
+Definition h_stale : history :=
+  [ ev 1 (CBegin RW) ROk 1 2; ev 1 (CPut ka v1) ROk 3 4; ev 1 CCommit ROk 5 6;
+    ev 2 (CBegin RO) ROk 7 8; ev 2 (CGet ka) (RVal None) 9 10; ev 2 CCommit ROk 11 12 ].
+(* the same reads are fine when the two overlap and t2 is listed (acquired the lock) first *)
+Definition h_overlap_ok : history :=
+  [ ev 2 (CBegin RO) ROk 1 4; ev 2 (CGet ka) (RVal None) 5 6; ev 2 CCommit ROk 7 8;
+    ev 1 (CBegin RW) ROk 2 9; ev 1 (CPut ka v1) ROk 10 11; ev 1 CCommit ROk 12 13 ].
+(* an order of Begin events that contradicts real time is rejected *)
+Definition h_rt_bad : history :=
+  [ ev 2 (CBegin RO) ROk 7 8; ev 2 (CGet ka) (RVal None) 9 10; ev 2 CCommit ROk 11 12;
+    ev 1 (CBegin RW) ROk 1 2; ev 1 (CPut ka v1) ROk 3 4; ev 1 CCommit ROk 5 6 ].
+
+Example ex_checker_rejects :
+  ser_check [] h_dirty = false /\ ser_check [] h_nonrep = false /\ ser_check [] h_lost_own = false /\
+  ser_check [] h_stale = false /\ ser_check [] h_rt_bad = false /\ ser_check [] h_overlap_ok = true.
+Proof. vm_compute. repeat split. Qed.
+
+Example ex_why :
+  ser_why [] h_dirty = WRead 2 1 (Some (RVal None)) /\
+  ser_why [] h_stale = WRead 2 1 (Some (RVal (Some v1))) /\
+  ser_why [] h_rt_bad = WRealTime 1 2 /\ ser_why [] h_overlap_ok = WAccept.
+Proof. vm_compute. repeat split. Qed.
+
+(* the definition itself is not trivially satisfiable: a lost own write is not serializable *)
+Example ex_not_serializable : ~ serializable [] h_lost_own.
+Proof.
+  intros (order & Hnd & Hmem & _ & Hrun).
+  assert (H1 : In 1%nat order) by (apply Hmem; cbn; auto).
+  assert (Hall : forall t, In t order -> t = 1%nat).
+  { intros t Ht. apply Hmem in Ht. cbn in Ht. intuition congruence. }
+  destruct order as [|a r]; [destruct H1|].
+  assert (a = 1%nat) by (apply Hall; left; reflexivity). subst a.
+  apply Hrun. reflexivity.
+Qed.
+
+Example ex_own_put_inst : exists s0 s1 s2 r,
+  exec s0 1 (CPut ka v1) = Some (s1, ROk) /\ steps s1 [LCall 1 (CPut kb v2) ROk; LCall 1 (CGet kb) (RVal (Some v2))] s2 /\
+  exec s2 1 (CGet ka) = Some (s2, r) /\ r = RVal (Some v1).
+Proof.
+  destruct (run_trace (init []) [LCall 1 (CBegin RW) ROk]) as [s0|] eqn:E0; [|vm_compute in E0; discriminate].
+  destruct (exec s0 1 (CPut ka v1)) as [[s1 r1]|] eqn:E1; [|vm_compute in E0; inversion E0; subst; vm_compute in E1; discriminate].
+  destruct (run_trace s1 [LCall 1 (CPut kb v2) ROk; LCall 1 (CGet kb) (RVal (Some v2))]) as [s2|] eqn:E2;
+    [|vm_compute in E0; inversion E0; subst; vm_compute in E1; inversion E1; subst; vm_compute in E2; discriminate].
+  exists s0, s1, s2, (RVal (Some v1)).
+  vm_compute in E0; inversion E0; subst. vm_compute in E1; inversion E1; subst.
+  split; [reflexivity|]. split; [apply run_trace_sound; exact E2|].
+  vm_compute in E2. inversion E2; subst. split; reflexivity.
+Qed.
+
+(* the premise of no_dirty_read is satisfiable: a concurrent reader's rejected write *)
+Example ex_no_dirty : exists s s' r', exec s 2 (CPut ka v1) = Some (s', r') /\
+  result_of (exec s' 1 (CGet ka)) = result_of (exec s 1 (CGet ka)) /\ result_of (exec s 1 (CGet ka)) = Some (RVal None).
+Proof.
+  exists {| s_store := []; s_readers := 2; s_writer := false;
+            s_txs := [(1%nat, {| t_spec := new_tx RO; t_lock := true |});
+                      (2%nat, {| t_spec := new_tx RO; t_lock := true |})] |}.
+  eexists. eexists. split; [vm_compute; reflexivity|]. split; vm_compute; reflexivity.
+Qed.
